@@ -27,6 +27,8 @@ class Impl:
                     setattr(obj, d, float(v))
                 if op['extras'] != '{}':
                     obj.extras = json.loads(op['extras'])
+                if op['name'] is not None and len(self.assets) % 4 == 1:
+                    self.drafted(obj)
                 m.add_asset(obj, asset_id=op['id'], allow_duplicate_names=op['allowDup'])
                 self.assets.append(obj)
             elif k == 'remove_asset':
@@ -68,6 +70,39 @@ class Impl:
         except LookupError: err = 'LookupError'
         except RecursionError: err = 'RecursionError'   # pjs __eq__ on removed objects with re-used names
         return {'err': err, 'out': out, 'obs': self.obs()}
+
+    def drafted(self, obj):
+        """every fourth named asset object has a past: it was part of a draft model (another Model object, thrown
+        away afterwards) and linked there to itself or to a partner that only the draft knows; what the draft did to
+        the object must not show in the model under test"""
+        from maltoolbox.model import Model
+        draft = Model('draft', self.fac)
+        try:
+            draft.add_asset(obj)
+        except Exception:
+            return
+        by = {a['name']: a for a in self.spec['assets']}
+        def anc(t):
+            out = []
+            while t: out.append(t); t = by[t]['superAsset']
+            return out
+        concrete = [a['name'] for a in self.spec['assets'] if not a['isAbstract']]
+        for a in self.spec['associations']:
+            if a['leftField'] == a['rightField']: continue
+            for mine, other, mf, of in ((a['leftAsset'], a['rightAsset'], a['leftField'], a['rightField']),
+                                        (a['rightAsset'], a['leftAsset'], a['rightField'], a['leftField'])):
+                if mine not in anc(str(obj.type)): continue
+                pt = next((t for t in concrete if other in anc(t)), None)
+                if pt is None: continue
+                try:
+                    partner = getattr(self.fac.ns, pt)(name='draft partner')
+                    draft.add_asset(partner)
+                    link = getattr(self.fac.ns, assoc_class_name(self.spec, a))()
+                    setattr(link, mf, [obj]); setattr(link, of, [partner])
+                    draft.add_association(link)
+                    return
+                except Exception:
+                    pass
 
     def obs(self):
         m = self.m
